@@ -49,7 +49,7 @@ COMPONENTS = {
     "oracle": ["the same call made in a pristine forked interpreter (dependency slice only)", "deep before/after snapshots of arguments"],
 }
 PROBES = ["same_name_different_definition", "failed_call_then_reuse", "shared_named_dict", "parsed_reused",
-          "writer_handle", "append_call", "metadata_argument", "schema_edited_in_place", "reader_schema_call", "unknown_reference_call", "generate_call", "load_call",
+          "writer_handle", "append_call", "metadata_argument", "schema_edited_in_place", "endurance_history", "reader_schema_call", "unknown_reference_call", "generate_call", "load_call",
           "json_call", "slice_smaller_than_prefix"]
 
 
@@ -549,9 +549,30 @@ def _run(ch, ctx, srv, F, H):
     n_calls = 5 + ch.draw(56 if ctx.tier == "thorough" else 30)
     ch.mark_count()
     descs = []
-    for _ in range(n_calls):
-        ch.mark()
-        descs.append(H.next_desc())
+    endurance = ch.chance(8)
+    if endurance:
+        # endurance history: hundreds of cheap calls with their own short-lived schemas in front of and between
+        # the ordinary ones (capacity-bound caches, id() re-use after garbage collection, counters that leak on
+        # the error path); one kind of traffic dominates per history
+        ctx.probe("endurance_history")
+        n_churn = ch.pick([300, 600, 1200] if ctx.tier == "quick" else [600, 1200, 3000])
+        kinds = ["ok", "reject", "badschema", "strict", "resolve"]
+        dom = ch.pick(kinds)
+        ctx.probe("endurance_" + dom)
+        positions = sorted(ch.draw(n_churn + 1) for _ in range(n_calls))
+        nxt = 0
+        for j in range(n_churn + 1):
+            while nxt < len(positions) and positions[nxt] == j:
+                ch.mark()
+                descs.append(H.next_desc())
+                nxt += 1
+            if j < n_churn:
+                descs.append({"op": "churn", "i": j, "kind": dom if ch.chance(60) else ch.pick(kinds)})
+        n_calls = len(descs)
+    else:
+        for _ in range(n_calls):
+            ch.mark()
+            descs.append(H.next_desc())
     parsed_into = {d["out"]: d["into"] for d in descs if d["op"] == "parse" and d.get("out") and d.get("into")}
     # The history runs in its OWN fresh process (one fork per run), never in this worker:
     # state leaked by earlier runs of the worker would make a violation irreproducible
@@ -562,7 +583,7 @@ def _run(ch, ctx, srv, F, H):
     if tampered3 is not None:
         tampered = (tampered3[0], tampered3[1])
         now_value = tampered3[2]
-    for i, o in enumerate(obs):
+    for i, o in enumerate(obs[:80]):
         ctx.ev("call", i, json.dumps(o, sort_keys=True, default=str)[:300])
     desc = {"history": [ops.describe(x) for x in descs]}
     if tampered is not None:
@@ -573,7 +594,12 @@ def _run(ch, ctx, srv, F, H):
                         scenario={"history": [ops.describe(x) for x in descs[:i + 1]]})
     # which calls to check: all in quick histories, a seeded sample of <= 24 in long ones
     idx = list(range(n_calls))
-    if n_calls > 24:
+    if endurance:
+        # the ordinary calls, the last churn calls (the most history behind them) and a seeded sample
+        ordinary = [i for i, d in enumerate(descs) if d["op"] != "churn"]
+        churn = [i for i, d in enumerate(descs) if d["op"] == "churn"]
+        idx = sorted(set(ordinary[-12:]) | set(churn[-6:]) | {churn[ch.draw(len(churn))] for _ in range(6)})
+    elif n_calls > 24:
         idx = sorted(ch.shuffle(idx)[:24])
     failing = [i for i, o in enumerate(obs) if o["exc"]]
     for k in idx:
